@@ -197,6 +197,11 @@ def build(app):
         note('arg', m)
         raise ombott.HTTPError(529, 'limit-' + m)
 
+    @app.route('/boom')
+    def boom():
+        # same URL for every request of this kind; what differs is a request header only
+        raise ValueError('boom-' + (app.request.headers.get('X-M') or '?'))
+
     @app.route('/json/<m>', method='POST')
     def json_in(m):
         note('arg', m)
